@@ -452,6 +452,12 @@ def index_sources(body, op, sites=None):
             out.append(("?", "depth"))
             return
         proj = list(pl["proj"])
+        # `((it.next() as Some).0).0`: the index half of an `enumerate()` item
+        enum_field = None
+        if len(proj) >= 3 and isinstance(proj[-1], dict) and "f" in proj[-1] and not proj[-1].get("variant") \
+                and isinstance(proj[-2], dict) and proj[-2].get("f") == 0 and isinstance(proj[-3], dict) and proj[-3].get("downcast") == "Some":
+            enum_field = proj[-1]["f"]
+            proj = proj[:-1]
         # strip `(x as Some).0` / `(x as Continue).0`
         while len(proj) >= 2 and isinstance(proj[-2], dict) and proj[-2].get("downcast") in ("Some", "Continue", "Ok") \
                 and isinstance(proj[-1], dict) and proj[-1].get("f") == 0:
@@ -489,6 +495,18 @@ def index_sources(body, op, sites=None):
             return
         if l in sites and payload >= 1:
             out.append(("pos", sites[l], offset, None))
+            return
+        if enum_field is not None:
+            hit = False
+            for d in defs.get(l, []):
+                if d[0] == "call" and body.calls[d[1]].is_("core::iter::Iterator::next") and body.calls[d[1]].args:
+                    it = body.operand_term(body.calls[d[1]].args[0])
+                    en = [x for x in walk(it) if isinstance(x, tuple) and is_call(x, "core::iter::Iterator::enumerate") and x[3]]
+                    if en and enum_field == 0 and payload == 1:
+                        out.append(("enumidx", en[0][3][0], offset, d[1]))
+                        hit = True
+            if not hit:
+                out.append(("?", "field of a loop item"))
             return
         ds = defs.get(l, [])
         if not ds:
@@ -584,6 +602,34 @@ def clause_removal_index(R, key, fn, q, id_param="packet_id", id_field="packet_i
                 else:
                     ok = False
                     why = "the index comes from a search over %s, used with offset %d on the whole list" % (show(recv)[:80], off)
+            elif src[0] == "enumidx":
+                # `for (i, e) in list.iter().enumerate() { if e.id == id { list.remove(i) } }`
+                recv, off, nbb = peel(src[1]), src[2], src[3]
+                whole, tail = _iterates(recv, q, tail=False), _iterates(recv, q, tail=True)
+                guarded = False
+                for sb in code.switches:
+                    if sb not in code.reachable:
+                        continue
+                    si = code.switch_info(sb)
+                    sj = peel(si["subject"])
+                    sides = None
+                    if sj[0] == "bin" and sj[1] == "Eq":
+                        sides = (peel(sj[2]), peel(sj[3]))
+                    elif is_call(sj, "PartialEq::eq", "eq") and len(sj[3]) == 2:
+                        sides = (peel(sj[3][0]), peel(sj[3][1]))
+                    te = si["edges"].get(True)
+                    if sides is None or te is None or not code.must_pass([0], [c.bb], via_edges=[(sb, te)])[0]:
+                        continue
+                    for a, b in (sides, sides[::-1]):
+                        ra, na = chain(a)
+                        ra = peel(ra)
+                        if b == ("param", id_param) and na[-1:] == [id_field] and isinstance(ra, tuple) and ra[0] == "call" and ra[1] == nbb \
+                                and [k for k in na if not k.startswith("@")][:2] == ["0", "1"]:
+                            guarded = True
+                if not guarded:
+                    ok, why = False, "the removal is not guarded by `entry.%s == %s` on the item whose index is used" % (id_field, id_param)
+                elif not ((whole and off == 0) or (tail and off == 1)):
+                    ok, why = False, "the index enumerates %s, used with offset %d on the whole list" % (show(recv)[:80], off)
             elif src[0] == "const":
                 good = False
                 if src[1] == 0 and src[2] is not None:
